@@ -52,5 +52,32 @@ func c09History(op int) {
 	}
 }
 
+// a killed or failed save followed by a later, shorter one (Clear): nothing of the
+// interrupted write may leak into the file
+func VerifHarness_C09_HistoryThenClear() {
+	path := verifFSRoot() + "/cfg/wtf/search_history.json"
+	old := &SearchHistory{Entries: []SearchEntry{{Query: "old one", ResultsCount: 1}, {Query: "old two", ResultsCount: 2}}, MaxSize: 100}
+	verifFSPutDoc(path, "json", old)
+	sh := NewSearchHistory(path, 100)
+	verifAssert(sh.Load() == nil, "C09: the existing history loads")
+	mode := verifIntRange("event", 1, 2)
+	k := verifInt("k")
+	verifAssume(k >= 0)
+	verifFSWritePlan(path, mode, k)
+	_ = verifCatch(func() {
+		sh.AddEntry("new query", 3, "", 5*time.Millisecond)
+		_ = sh.Save()
+	})
+	verifFSWriteUnlimit()
+	later := NewSearchHistory(path, 100)
+	verifAssert(later.Load() == nil, "C09: the history still loads after the interrupted save")
+	verifAssert(later.Clear() == nil, "C09: an undisturbed clear succeeds")
+	back := NewSearchHistory(path, 100)
+	lerr := back.Load()
+	verifAssert(lerr == nil && len(back.Entries) == 0, "C09: after a later undisturbed clear the history file holds exactly the new (empty) log")
+	verifReach("completed")
+	verifReach("interrupted")
+}
+
 func VerifHarness_C09_HistorySave()  { c09History(0) }
 func VerifHarness_C09_HistoryClear() { c09History(1) }
